@@ -857,7 +857,9 @@ def wls_record(A, b, s, conv, order):
 
 def wlsf_record(mode, N, M, dseed):
     """computechi2 on a FLOAT system: 'highsn' (bright polynomial continuum, errors 1e-3..1e-5, sqivar = 1/sigma),
-    'noisefree' (b exactly a combination of the columns) or 'ordinary'.  Only returned attributes are measured."""
+    'noisefree' (b exactly a combination of the columns), 'ordinary', or an ordinary system expressed in tiny / huge
+    units ('tinyunits': A * 1e-5..1e-17, sqivar * 1e-4..1e-11, b * 1..1e-17; 'hugeunits' the reciprocals).
+    Only returned attributes are measured, all relative to their own scale."""
     from pydl.pydlutils.math import computechi2
     rng = np.random.RandomState(dseed)
     x = np.linspace(-1.0, 1.0, N)
@@ -875,6 +877,11 @@ def wlsf_record(mode, N, M, dseed):
         b = A @ x0 + sigma * rng.randn(N)
         sq = 1.0 / sigma
     sq[rng.rand(N) < 0.1] = 0.0
+    if mode in ('tinyunits', 'hugeunits'):       # the same problem in other units: errors ~1e9, cgs fluxes ~1e-17, ...
+        sgn = -1 if mode == 'tinyunits' else 1
+        ua, ub, us = (10.0 ** (sgn * rng.randint(5, 18)), 10.0 ** (sgn * rng.randint(0, 18)),
+                      10.0 ** (sgn * rng.randint(4, 12)))
+        A, b, sq = A * ua, b * ub, sq * us
     rec = {'kind': 'wlsf', 'mode': mode, 'n': N, 'm': M, 'dseed': dseed, 'err': False, 'exc': '', 'neg': False, 'disc': 0,
            'grad': 0, 'cinv': 0, 'dof': 0, 'npos': int((sq > 0).sum())}
     try:
@@ -902,7 +909,7 @@ def wlsf_record(mode, N, M, dseed):
 
 
 def record_wlsf(rng, k):
-    mode = ['highsn', 'noisefree', 'highsn', 'ordinary'][k % 4]
+    mode = ['highsn', 'noisefree', 'tinyunits', 'ordinary', 'highsn', 'hugeunits'][k % 6]
     return wlsf_record(mode, rng.choice([20, 60, 200]), rng.choice([1, 2, 3]), rng.randrange(2**31))
 
 
@@ -1036,7 +1043,12 @@ def run(ctx):
         'vector A.z*2^24 added to b (nearly exact fit of a large signal); the expected values are TLC\'s, rescaled / shifted '
         'as the TLC-checked laws HomogeneousInA/B/S and ModelShift say (checked with factor 2 and z = (1,-1,2); they are '
         'polynomial identities); chi2 is compared with an absolute tolerance tied to the residual scale, not to |b*sqivar|^2',
-        'recorded float systems (high signal-to-noise, noise-free): chi2 >= 0, chi2 vs the weighted residual of the RETURNED '
+        'every enumerated system is also replayed in other units: A * 2^ka, b * 2^kb, sqivar * 2^ks with ka, kb in -60..60 '
+        'and ks in -40..40 drawn per case (expected values rescaled by the same homogeneity laws; down-scalings are the laws '
+        'read backwards - they are homogeneous polynomial identities, TLC checks them with factor 2); all tolerances are '
+        'relative to the scaled magnitudes.  The range stops at |exponent| <= 200 for every product formed (normal matrix, '
+        'chi2): the unchanged code is scale-covariant up to about 2^+-510, where the squares leave the double range',
+        'recorded float systems (high signal-to-noise, noise-free, tiny units down to A*1e-17 / sqivar*1e-11, huge units): chi2 >= 0, chi2 vs the weighted residual of the RETURNED '
         'yfit, gradient and covar inverse are harness-measured and judged by TLC as scaled integers (exploration level)',
         'HMF seed determinism (results of solve() depend on data, K, seed, mode only) is exercised with seed = 0 and random '
         'seeds under three histories of the global numpy RNG: twins constructed and solved from different RNG states; both '
